@@ -32,21 +32,23 @@ use genc as gen_;
 
 #[derive(Clone, Debug)]
 struct Case {
-    /// "payload" | "names" | "quals" | "itf8_range" | "itf8_set" | "ltf8" | "uint7"
+    /// "payload" | "witness" | "names" | "quals" | "itf8_range" | "itf8_set" | "ltf8" | "uint7"
     kind: &'static str,
     /// payload class / name family / quality style / integer sub-set
     class: String,
     /// payload length / number of names / number of records / number of random values
     len: usize,
     pseed: u64,
-    /// run configuration `i` of this case iff `i % part.1 == part.0`
+    /// run configuration `i` of this case iff `mix(i) % part.1 == part.0`
     part: (u32, u32),
+    /// run the two rANS 4x8 configurations in this case
+    r4x8: bool,
     /// first value of an exhaustive ITF8 range (as unsigned bit pattern)
     lo: u64,
 }
 
 fn case_json(c: &Case) -> Value {
-    json!({"kind": c.kind, "class": c.class, "len": c.len, "pseed": c.pseed, "part": [c.part.0, c.part.1], "lo": c.lo})
+    json!({"kind": c.kind, "class": c.class, "len": c.len, "pseed": c.pseed, "part": [c.part.0, c.part.1], "r4x8": c.r4x8, "lo": c.lo})
 }
 
 // ------------------------------------------------------------------------------------------------
@@ -98,10 +100,60 @@ fn first_diff(a: &[u8], b: &[u8]) -> String {
     format!("lengths {} vs {}, first difference at offset {n}", a.len(), b.len())
 }
 
+/// What the independent decoder makes of a stream noodles emitted.
+enum Stream {
+    /// decodes to the input under the specification decoder
+    SpecOk,
+    /// the specification decoder fails (or yields other bytes), but the stream decodes to the input once
+    /// the named *known* deviations of noodles' encoder are read the way noodles writes them
+    KnownDefect(Vec<&'static str>),
+    /// neither: (diagnostic class, human readable)
+    Unexplained(String, String),
+}
+
+/// Fixed priority for naming a stream that carries several known deviations.
+const DEFECT_PRIORITY: &[&str] = &[
+    "alphabet-starts-at-1",
+    "order1-chunks-not-interleaved",
+    "symlist-starts-at-1",
+    "symlist-run-to-255",
+    "ctxlist-run-to-255",
+    "ctxlist-starts-at-1",
+];
+
+fn primary(notes: &[&'static str]) -> &'static str {
+    DEFECT_PRIORITY.iter().find(|d| notes.contains(d)).copied().unwrap_or("unnamed")
+}
+
+fn classify(
+    data: &[u8],
+    spec: Result<Vec<u8>, String>,
+    dialect: impl FnOnce() -> Result<(Vec<u8>, Vec<&'static str>), String>,
+) -> Stream {
+    let (class, text) = match spec {
+        Ok(d) if d == data => return Stream::SpecOk,
+        Ok(d) => ("mismatch".to_string(), format!("decodes to other bytes ({})", first_diff(&d, data))),
+        Err(e) => (e.clone(), format!("cannot decode it: {e}")),
+    };
+    match dialect() {
+        Ok((d, notes)) if d == data && !notes.is_empty() => Stream::KnownDefect(notes),
+        _ => Stream::Unexplained(class, text),
+    }
+}
+
+fn classify_4x8(enc: &[u8], data: &[u8]) -> Stream {
+    classify(data, refrans::decode_4x8(enc), || refrans::decode_4x8_dialect(enc))
+}
+
+fn classify_nx16(enc: &[u8], data: &[u8], len: Option<usize>) -> Stream {
+    classify(data, refrans::decode_nx16(enc, len), || refrans::decode_nx16_dialect(enc, len))
+}
+
 impl Trip<'_> {
     /// `codec`: short codec name; `req`: requested configuration label; `enc`/`dec`: noodles; `xdec`:
-    /// the independent decoder (if one exists for this codec); `eff`: renders the *effective*
-    /// configuration from the encoded stream (what the encoder normalised the request to).
+    /// classification of the emitted stream by the independent decoder (if one exists for this
+    /// codec); `eff`: renders the *effective* configuration from the encoded stream (what the
+    /// encoder normalised the request to).
     #[allow(clippy::too_many_arguments)]
     fn run(
         &mut self,
@@ -110,74 +162,90 @@ impl Trip<'_> {
         data: &[u8],
         enc: &dyn Fn() -> std::io::Result<Vec<u8>>,
         dec: &dyn Fn(&[u8]) -> std::io::Result<Vec<u8>>,
-        xdec: Option<&dyn Fn(&[u8]) -> Result<Vec<u8>, String>>,
+        xdec: Option<&dyn Fn(&[u8]) -> Stream>,
         eff: &dyn Fn(&[u8]) -> String,
     ) {
         let o = &mut *self.o;
         let key = format!("{codec}:{req}");
         o.evaluations += 1;
-        o.count(&format!("L|{key}|{}", data.len()), 1);
+        o.count(&format!("L~{key}~{}", data.len()), 1);
         o.fps.push(fnv1a(format!("{key}|{}", self.fp_class).as_bytes()));
         let lc = gen_::len_class(data.len());
+        let wit_in = || json!({"input_hex": hex(&data[..data.len().min(512)])});
         let encoded = match guard::catch(enc) {
             Err(p) => {
                 o.violation_with(
                     format!("panic:{}", p.sig),
                     format!("{codec} encode panicked ({}) with {req} on {}: input {}", p.message, self.what, head(data)),
-                    json!({"input_hex": hex(&data[..data.len().min(4096)])}),
+                    wit_in(),
                 );
                 return;
             }
             Ok(Err(e)) => {
-                o.count(&format!("J|{key}|{}", io_kind(&e)), 1);
+                o.count(&format!("J~{key}~{}", io_kind(&e)), 1);
                 return;
             }
             Ok(Ok(b)) => b,
         };
         let e = eff(&encoded);
         if e != req {
-            o.count(&format!("N|{key}"), 1);
+            o.count(&format!("N~{key}"), 1);
         }
-        match guard::catch(|| dec(&encoded)) {
-            Err(p) => o.violation_with(
-                format!("panic:{}", p.sig),
-                format!("{codec} decode panicked ({}) on its own encoding, requested {req}, effective {e}, {}: input {}", p.message, self.what, head(data)),
-                json!({"input_hex": hex(&data[..data.len().min(4096)])}),
-            ),
-            Ok(Err(err)) => o.violation_with(
-                format!("{codec}-selftrip:decode-error:{e}:len={lc}"),
-                format!("{codec} decode rejects noodles' own encoding ({err}); requested {req}, effective {e}, {}: input {} -> encoded {}", self.what, head(data), head(&encoded)),
-                json!({"input_hex": hex(&data[..data.len().min(4096)])}),
-            ),
-            Ok(Ok(back)) => {
-                if back != data {
-                    o.violation_with(
-                        format!("{codec}-selftrip:mismatch:{e}:len={lc}"),
-                        format!("{codec} decode(encode(x)) != x ({}); requested {req}, effective {e}, {}: input {} -> decoded {}", first_diff(&back, data), self.what, head(data), head(&back)),
-                        json!({"input_hex": hex(&data[..data.len().min(4096)])}),
-                    );
-                }
-            }
-        }
+        let wit = || json!({"input_hex": hex(&data[..data.len().min(512)]), "encoded_hex": hex(&encoded[..encoded.len().min(512)])});
+        // 1. what does the independent decoder make of the stream?
+        let mut stream = None;
         if let Some(x) = xdec {
-            o.count(&format!("X|{key}"), 1);
+            o.count(&format!("X~{key}"), 1);
             match guard::catch(|| x(&encoded)) {
                 Err(p) => o.inconclusive.push(format!("independent {codec} decoder panicked: {} ({})", p.message, self.what)),
-                Ok(Err(err)) => o.violation_with(
-                    format!("{codec}-xdec:{err}:{e}:len={lc}"),
-                    format!("the independent {codec} decoder (CRAM codecs specification) cannot decode noodles' stream: {err}; requested {req}, effective {e}, {}: input {} -> encoded {}", self.what, head(data), head(&encoded)),
-                    json!({"input_hex": hex(&data[..data.len().min(4096)]), "encoded_hex": hex(&encoded[..encoded.len().min(4096)])}),
-                ),
-                Ok(Ok(back)) => {
-                    if back != data {
-                        o.violation_with(
-                            format!("{codec}-xdec:mismatch:{e}:len={lc}"),
-                            format!("the independent {codec} decoder (CRAM codecs specification) decodes noodles' stream to something else ({}); requested {req}, effective {e}, {}: input {} -> encoded {}", first_diff(&back, data), self.what, head(data), head(&encoded)),
-                            json!({"input_hex": hex(&data[..data.len().min(4096)]), "encoded_hex": hex(&encoded[..encoded.len().min(4096)])}),
-                        );
+                Ok(st) => {
+                    match &st {
+                        Stream::SpecOk => {}
+                        Stream::KnownDefect(notes) => o.violation_with(
+                            format!("{codec}-xdec:encoder-defect={}", primary(notes)),
+                            format!(
+                                "the independent {codec} decoder (CRAM codecs specification) cannot decode noodles' stream to the input; it decodes to the input once the encoder's known deviation(s) {notes:?} are read the way noodles writes them; requested {req}, effective {e}, {}: input {} -> encoded {}",
+                                self.what, head(data), head(&encoded)
+                            ),
+                            wit(),
+                        ),
+                        Stream::Unexplained(class, text) => o.violation_with(
+                            format!("{codec}-xdec:{class}:{e}:len={lc}"),
+                            format!(
+                                "the independent {codec} decoder (CRAM codecs specification) {text}; requested {req}, effective {e}, {}: input {} -> encoded {}",
+                                self.what, head(data), head(&encoded)
+                            ),
+                            wit(),
+                        ),
                     }
+                    stream = Some(st);
                 }
             }
+        }
+        // 2. noodles' own decoder; a failure on a stream that carries a known encoder defect is
+        //    attributed to that defect, every other failure gets a generic, narrow signature
+        let (fail_class, fail_text): (Option<String>, String) = match guard::catch(|| dec(&encoded)) {
+            Err(p) => (Some(format!("panic:{}", p.sig)), format!("decode panicked ({})", p.message)),
+            Ok(Err(err)) => (Some("decode-error".into()), format!("decode rejects noodles' own encoding ({err})")),
+            Ok(Ok(back)) => {
+                if back != data {
+                    (Some("mismatch".into()), format!("decode(encode(x)) != x ({}), decoded {}", first_diff(&back, data), head(&back)))
+                } else {
+                    (None, String::new())
+                }
+            }
+        };
+        if let Some(class) = fail_class {
+            let sig = match (&stream, class.starts_with("panic:")) {
+                (Some(Stream::KnownDefect(notes)), _) => format!("{codec}-selftrip:encoder-defect={}", primary(notes)),
+                (_, true) => class.clone(),
+                _ => format!("{codec}-selftrip:{class}:{e}:len={lc}"),
+            };
+            o.violation_with(
+                sig,
+                format!("{codec} {fail_text}; requested {req}, effective {e}, {}: input {} -> encoded {}", self.what, head(data), head(&encoded)),
+                wit(),
+            );
         }
     }
 }
@@ -196,62 +264,74 @@ fn pre_sized(
 /// Number of configurations of a payload case (the `part` filter runs over these indices).
 const N_CONFIGS: u32 = 2 + 128 + 128 + 7 + 4 + 3 + 3;
 
+fn do_r4x8(t: &mut Trip, data: &[u8], order1: bool) {
+    let order = if order1 { codecs::rans_4x8::Order::One } else { codecs::rans_4x8::Order::Zero };
+    t.run(
+        "r4x8",
+        if order1 { "o1" } else { "o0" },
+        data,
+        &|| codecs::rans_4x8::encode(order, data),
+        &|b| codecs::rans_4x8::decode(b),
+        Some(&|b| classify_4x8(b, data)),
+        &|b| if b.first() == Some(&1) { "o1".into() } else { "o0".into() },
+    );
+}
+
+fn do_nx16(t: &mut Trip, data: &[u8], f: u8) {
+    t.run(
+        "nx16",
+        &flag_names(&NX16_BITS, f),
+        data,
+        &|| codecs::rans_nx16::encode(codecs::rans_nx16::Flags::from(f), data),
+        &|b| codecs::rans_nx16::decode(b, data.len()),
+        Some(&|b| classify_nx16(b, data, Some(data.len()))),
+        &|b| flag_names(&NX16_BITS, b.first().copied().unwrap_or(0)),
+    );
+}
+
+fn do_aac(t: &mut Trip, data: &[u8], f: u8) {
+    t.run(
+        "aac",
+        &flag_names(&AAC_BITS, f),
+        data,
+        &|| codecs::aac::encode(codecs::aac::Flags::from(f), data),
+        &|b| codecs::aac::decode(b, data.len()),
+        None,
+        &|b| flag_names(&AAC_BITS, b.first().copied().unwrap_or(0)),
+    );
+}
+
+fn do_fqz(t: &mut Trip, data: &[u8], lens: &[usize], label: &str) {
+    t.o.max("max_fqz_records", lens.len() as u64);
+    t.run("fqz", label, data, &|| codecs::fqzcomp::encode(lens, data), &|b| codecs::fqzcomp::decode(b), None, &|_| label.to_string());
+}
+
 fn run_payload(c: &Case, o: &mut CaseOut) {
     let mut rng = Rng::new(c.pseed, 8, 0);
     let data = gen_::make(&c.class, c.len, &mut rng);
     let what = format!("payload class {} len {} pseed {}", c.class, c.len, c.pseed);
     let fp_class = format!("{}|{}", c.class, c.len);
     let mut t = Trip { o, what, fp_class };
-    let sel = |i: u32| i % c.part.1 == c.part.0;
+    // pseudo-random but fixed assignment of the configurations to the parts
+    let sel = |i: u32| (i.wrapping_mul(0x9E37_79B1) >> 15) % c.part.1 == c.part.0;
     let same = |s: &str| {
         let s = s.to_string();
         move |_: &[u8]| s.clone()
     };
+    if c.r4x8 {
+        do_r4x8(&mut t, &data, false);
+        do_r4x8(&mut t, &data, true);
+    }
     let mut i = 0u32;
-    // rANS 4x8
-    for (name, order) in [("o0", codecs::rans_4x8::Order::Zero), ("o1", codecs::rans_4x8::Order::One)] {
+    for k in 0..128 {
         if sel(i) {
-            t.run(
-                "r4x8",
-                name,
-                &data,
-                &|| codecs::rans_4x8::encode(order, &data),
-                &|b| codecs::rans_4x8::decode(b),
-                Some(&|b| refrans::decode_4x8(b)),
-                &|b| if b.first() == Some(&1) { "o1".into() } else { "o0".into() },
-            );
+            do_nx16(&mut t, &data, subset(&NX16_BITS, k));
         }
         i += 1;
     }
-    // rANS Nx16
     for k in 0..128 {
         if sel(i) {
-            let f = subset(&NX16_BITS, k);
-            t.run(
-                "nx16",
-                &flag_names(&NX16_BITS, f),
-                &data,
-                &|| codecs::rans_nx16::encode(codecs::rans_nx16::Flags::from(f), &data),
-                &|b| codecs::rans_nx16::decode(b, data.len()),
-                Some(&|b| refrans::decode_nx16(b, data.len())),
-                &|b| flag_names(&NX16_BITS, b.first().copied().unwrap_or(0)),
-            );
-        }
-        i += 1;
-    }
-    // adaptive arithmetic coder
-    for k in 0..128 {
-        if sel(i) {
-            let f = subset(&AAC_BITS, k);
-            t.run(
-                "aac",
-                &flag_names(&AAC_BITS, f),
-                &data,
-                &|| codecs::aac::encode(codecs::aac::Flags::from(f), &data),
-                &|b| codecs::aac::decode(b, data.len()),
-                None,
-                &|b| flag_names(&AAC_BITS, b.first().copied().unwrap_or(0)),
-            );
+            do_aac(&mut t, &data, subset(&AAC_BITS, k));
         }
         i += 1;
     }
@@ -260,16 +340,7 @@ fn run_payload(c: &Case, o: &mut CaseOut) {
         if sel(i) {
             let mut prng = Rng::new(c.pseed, 9, k as u64);
             let lens = gen_::partition(kind, data.len(), &mut prng);
-            t.o.max("max_fqz_records", lens.len() as u64);
-            t.run(
-                "fqz",
-                kind,
-                &data,
-                &|| codecs::fqzcomp::encode(&lens, &data),
-                &|b| codecs::fqzcomp::decode(b),
-                None,
-                &same(kind),
-            );
+            do_fqz(&mut t, &data, &lens, kind);
         }
         i += 1;
     }
@@ -297,25 +368,61 @@ fn run_payload(c: &Case, o: &mut CaseOut) {
     debug_assert_eq!(i, N_CONFIGS);
 }
 
+/// Deterministic witnesses of the known findings (/verif/findings/C08.known): every run meets each of
+/// them, whatever the seed. (id, codec, flags / order, input)
+const WITNESSES: &[(&str, &str, u8, &[u8])] = &[
+    ("nx16-alphabet-starts-at-1", "nx16", 0x00, &[1, 1, 1, 1]),
+    ("nx16-order1-chunks-not-interleaved", "nx16", 0x01, b"CGACTGGGAGCGTCTTCTAGTAACCCATCGCTCGCAGAG"),
+    ("r4x8-symlist-starts-at-1", "r4x8", 0, &[1, 1, 1]),
+    ("r4x8-symlist-run-to-255", "r4x8", 0, &[0xfd, 0xfe, 0xff, 0xfd, 0xfe, 0xff]),
+    ("r4x8-ctxlist-run-to-255", "r4x8", 1, &[0xfd, 0xff, 0xff, 0xfd, 0xfe, 0xfe, 0xff]),
+    ("r4x8-empty-input", "r4x8", 0, &[]),
+    ("aac-empty-input", "aac", 0x00, &[]),
+    ("aac-pack-single-symbol", "aac", 0x80, b"AAAAA"),
+    ("fqz-empty-input", "fqz", 0, &[]),
+    ("tok-leading-zeros", "tok", 0, b"r:5\0r:007"),
+    ("tok-substream-alphabet-starts-at-1", "tok", 0, b"ab:1\0ab:2\0ab:3\0ab:4"),
+    (
+        "tok-127-tokens",
+        "tok",
+        0,
+        b"1:2:3:4:5:6:7:8:9:0:1:2:3:4:5:6:7:8:9:0:1:2:3:4:5:6:7:8:9:0:1:2:3:4:5:6:7:8:9:0:1:2:3:4:5:6:7:8:9:0:1:2:3:4:5:6:7:8:9:0:1:2:3:4",
+    ),
+];
+
+fn run_witness(c: &Case, o: &mut CaseOut) {
+    let (id, codec, f, data) = *WITNESSES.iter().find(|w| w.0 == c.class).expect("witness id");
+    if codec == "tok" {
+        let list: Vec<Vec<u8>> = data.split(|&b| b == 0).map(|s| s.to_vec()).collect();
+        check_names(o, &format!("witness:{id}"), &list);
+        return;
+    }
+    let mut t = Trip { o, what: format!("fixed witness {id}"), fp_class: format!("witness|{id}") };
+    match codec {
+        "nx16" => do_nx16(&mut t, data, f),
+        "r4x8" => do_r4x8(&mut t, data, f == 1),
+        "aac" => do_aac(&mut t, data, f),
+        "fqz" => do_fqz(&mut t, data, &[], "empty-partition"),
+        _ => unreachable!(),
+    }
+}
+
 fn run_quals(c: &Case, o: &mut CaseOut) {
     let mut rng = Rng::new(c.pseed, 10, 0);
     let (lens, data) = gen_::quality_records(&mut rng, c.len, &c.class);
     let what = format!("quality records style {} n {} pseed {} (lens {:?}…)", c.class, c.len, c.pseed, &lens[..lens.len().min(8)]);
-    o.max("max_fqz_records", lens.len() as u64);
     let fp_class = format!("quals|{}|{}", c.class, c.len);
     let mut t = Trip { o, what, fp_class };
-    let req = format!("records-{}", c.class);
-    t.run("fqz", &req, &data, &|| codecs::fqzcomp::encode(&lens, &data), &|b| codecs::fqzcomp::decode(b), None, &|_| req.clone());
+    do_fqz(&mut t, &data, &lens, &format!("records-{}", c.class));
 }
 
-fn split_names(mut b: &[u8]) -> Vec<Vec<u8>> {
-    if b.is_empty() {
-        return Vec::new();
-    }
-    if let Some(s) = b.strip_suffix(&[0]) {
-        b = s;
-    }
-    b.split(|&x| x == 0).map(|s| s.to_vec()).collect()
+fn strip_nul(b: &[u8]) -> &[u8] {
+    b.strip_suffix(&[0]).unwrap_or(b)
+}
+
+fn split_names(b: &[u8]) -> Vec<&[u8]> {
+    let b = strip_nul(b);
+    if b.is_empty() { Vec::new() } else { b.split(|&x| x == 0).collect() }
 }
 
 fn show_names(n: &[Vec<u8>]) -> String {
@@ -323,10 +430,91 @@ fn show_names(n: &[Vec<u8>]) -> String {
     format!("{v:?}{}", if n.len() > 12 { format!(" …({} names)", n.len()) } else { String::new() })
 }
 
+/// Maximal runs of ASCII alphanumerics / of everything else (the token boundaries of the CRAM name
+/// tokenizer).
+fn name_tokens(n: &[u8]) -> Vec<&[u8]> {
+    let mut out = Vec::new();
+    let mut start = 0;
+    for i in 1..=n.len() {
+        if i == n.len() || n[i].is_ascii_alphanumeric() != n[start].is_ascii_alphanumeric() {
+            out.push(&n[start..i]);
+            start = i;
+        }
+    }
+    out
+}
+
+/// Diagnostic class of a name-list mismatch: do all differences consist of an all-digit token that
+/// lost its leading zeros?
+fn only_leading_zeros_lost(expected: &[&[u8]], got: &[&[u8]]) -> bool {
+    if expected.len() != got.len() {
+        return false;
+    }
+    let mut any = false;
+    for (e, g) in expected.iter().zip(got) {
+        if e == g {
+            continue;
+        }
+        let (te, tg) = (name_tokens(e), name_tokens(g));
+        if te.len() != tg.len() {
+            return false;
+        }
+        for (a, b) in te.iter().zip(&tg) {
+            if a == b {
+                continue;
+            }
+            let digits = |x: &[u8]| !x.is_empty() && x.iter().all(|c| c.is_ascii_digit());
+            if !(digits(a) && digits(b) && a.len() > 1 && a[0] == b'0') {
+                return false;
+            }
+            let k = a.iter().position(|&c| c != b'0').unwrap_or(a.len() - 1);
+            if &a[k..] != *b {
+                return false;
+            }
+            any = true;
+        }
+    }
+    any
+}
+
+/// The rANS Nx16 sub-streams of a name tokenizer block (CRAM codecs: 4 bytes total name length,
+/// 4 bytes name count, 1 byte use_arith; then per token stream one type byte (bit 7 = first stream
+/// of the next token position, bit 6 = duplicate of another stream, followed by two bytes), a uint7
+/// compressed length and the compressed stream).
+fn tok_substreams(enc: &[u8]) -> Result<Vec<(u8, &[u8])>, String> {
+    if enc.len() < 9 {
+        return Err("container shorter than its header".into());
+    }
+    if enc[8] != 0 {
+        return Err("use_arith set".into());
+    }
+    let mut p = 9;
+    let mut out = Vec::new();
+    while p < enc.len() {
+        let ttype = enc[p];
+        p += 1;
+        if ttype & 0x40 != 0 {
+            p += 2;
+            continue;
+        }
+        let (clen, n) = refnum::uint7_decode(&enc[p..]).ok_or("truncated stream length")?;
+        p += n;
+        let d = enc.get(p..p + clen as usize).ok_or("stream longer than the container")?;
+        p += clen as usize;
+        out.push((ttype, d));
+    }
+    Ok(out)
+}
+
 fn run_names(c: &Case, o: &mut CaseOut) {
     let mut rng = Rng::new(c.pseed, 11, 0);
     let list: Vec<Vec<u8>> = if c.class == "empty_list" { Vec::new() } else { gen_::names(&c.class, c.len, &mut rng) };
+    check_names(o, &c.class, &list);
+}
+
+fn check_names(o: &mut CaseOut, family: &str, list: &[Vec<u8>]) {
     o.max("max_names_per_list", list.len() as u64);
+    o.max("max_tokens_per_name", list.iter().map(|n| name_tokens(n).len()).max().unwrap_or(0) as u64);
     for trailing_nul in [true, false] {
         let mut src = Vec::new();
         for (i, n) in list.iter().enumerate() {
@@ -341,43 +529,96 @@ fn run_names(c: &Case, o: &mut CaseOut) {
         let req = if trailing_nul { "nul-terminated" } else { "nul-separated" };
         let key = format!("tok:{req}");
         o.evaluations += 1;
-        o.count(&format!("L|{key}|{}", list.len()), 1);
-        o.fps.push(fnv1a(format!("{key}|{}|{}", c.class, list.len()).as_bytes()));
+        o.count(&format!("L~{key}~{}", list.len()), 1);
+        o.fps.push(fnv1a(format!("{key}|{}|{}", family, list.len()).as_bytes()));
         let wit = json!({"names": list.iter().take(400).map(|s| String::from_utf8_lossy(s).into_owned()).collect::<Vec<_>>()});
         let encoded = match guard::catch(|| codecs::name_tokenizer::encode(&src)) {
             Err(p) => {
-                o.violation_with(format!("panic:{}", p.sig), format!("name tokenizer encode panicked ({}) on family {} ({req}): {}", p.message, c.class, show_names(&list)), wit);
+                o.violation_with(format!("panic:{}", p.sig), format!("name tokenizer encode panicked ({}) on family {} ({req}): {}", p.message, family, show_names(list)), wit);
                 continue;
             }
             Ok(Err(e)) => {
-                o.count(&format!("J|{key}|{}", io_kind(&e)), 1);
+                o.count(&format!("J~{key}~{}", io_kind(&e)), 1);
                 continue;
             }
             Ok(Ok(b)) => b,
         };
-        match guard::catch(|| codecs::name_tokenizer::decode(&encoded)) {
-            Err(p) => o.violation_with(format!("panic:{}", p.sig), format!("name tokenizer decode panicked ({}) on its own encoding, family {} ({req}): {}", p.message, c.class, show_names(&list)), wit),
-            Ok(Err(e)) => o.violation_with(
-                format!("tok-selftrip:decode-error:family={}", c.class),
-                format!("name tokenizer decode rejects noodles' own encoding ({e}), family {} ({req}): {}", c.class, show_names(&list)),
-                wit,
-            ),
-            Ok(Ok(back)) => {
-                let got = split_names(&back);
-                if got != list {
-                    let k = got.iter().zip(&list).position(|(a, b)| a != b).unwrap_or(got.len().min(list.len()));
-                    let show = |v: &Vec<Vec<u8>>, k: usize| v.get(k).map(|s| String::from_utf8_lossy(s).into_owned()).unwrap_or_else(|| "<none>".into());
-                    let prev = if k > 0 { show(&list, k - 1) } else { "<first>".into() };
-                    o.violation_with(
-                        format!("tok-selftrip:mismatch:family={}", c.class),
-                        format!(
-                            "name tokenizer decode(encode(names)) != names, family {} ({req}): {} names in, {} out; first difference at name #{k}: expected {:?}, got {:?} (previous name {:?})",
-                            c.class, list.len(), got.len(), show(&list, k), show(&got, k), prev
-                        ),
-                        wit,
-                    );
+        // the embedded rANS Nx16 streams are rANS streams noodles emits: cross-decode each of them
+        // (the expected content of a token stream is not known independently, so only "decodable
+        // under the specification" is judged, plus agreement with noodles' decoder of the same bytes)
+        let mut hit: Vec<&'static str> = Vec::new();
+        match tok_substreams(&encoded) {
+            Err(e) => o.violation_with("tok-container:unparsable", format!("name tokenizer output cannot be split into token streams ({e}), family {}: {}", family, show_names(list)), wit.clone()),
+            Ok(subs) => {
+                o.count(&format!("X~{key}"), 1);
+                o.count("tok_substreams_cross_decoded", subs.len() as u64);
+                for (ttype, sub) in subs {
+                    let theirs = guard::catch(|| codecs::rans_nx16::decode(sub, 0));
+                    let mine = refrans::decode_nx16(sub, None);
+                    match (&mine, &theirs) {
+                        (Ok(a), Ok(Ok(b))) if a == b => {}
+                        _ => {
+                            // known encoder defect?
+                            match refrans::decode_nx16_dialect(sub, None) {
+                                Ok((_, notes)) if !notes.is_empty() => {
+                                    let d = primary(&notes);
+                                    if !hit.contains(&d) {
+                                        hit.push(d);
+                                        o.violation_with(
+                                            format!("tok-xdec:substream-encoder-defect={d}"),
+                                            format!(
+                                                "token stream (type byte {ttype:#04x}) inside the name tokenizer block is an rANS Nx16 stream the specification decoder cannot read ({}); it carries the encoder's known deviation {notes:?}; family {} ({req}): {}; stream {}",
+                                                mine.as_ref().err().cloned().unwrap_or_else(|| "differs from noodles' decoding".into()), family, show_names(list), head(sub)
+                                            ),
+                                            wit.clone(),
+                                        );
+                                    }
+                                }
+                                _ => o.violation_with(
+                                    format!("tok-xdec:substream:{}", mine.as_ref().err().cloned().unwrap_or_else(|| "disagrees-with-noodles-decoder".into())),
+                                    format!("token stream (type byte {ttype:#04x}) inside the name tokenizer block: specification decoder says {:?}, noodles' decoder says {:?}; family {} ({req}): {}; stream {}", mine.as_ref().map(|v| head(v)), theirs.as_ref().map(|r| r.as_ref().map(|v| head(v)).map_err(|e| e.to_string())).map_err(|p| p.message.clone()), family, show_names(list), head(sub)),
+                                    wit.clone(),
+                                ),
+                            }
+                        }
+                    }
                 }
             }
+        }
+        let (fail_class, fail_text): (Option<String>, String) = match guard::catch(|| codecs::name_tokenizer::decode(&encoded)) {
+            Err(p) => (Some(format!("panic:{}", p.sig)), format!("decode panicked ({}) on its own encoding", p.message)),
+            Ok(Err(e)) => (Some("decode-error".into()), format!("decode rejects noodles' own encoding ({e})")),
+            Ok(Ok(back)) => {
+                if strip_nul(&back) == strip_nul(&src) {
+                    (None, String::new())
+                } else {
+                    let got = split_names(&back);
+                    let exp: Vec<&[u8]> = list.iter().map(|n| &n[..]).collect();
+                    let k = got.iter().zip(&exp).position(|(a, b)| a != b).unwrap_or(got.len().min(exp.len()));
+                    let show = |v: &Vec<&[u8]>, k: usize| v.get(k).map(|s| String::from_utf8_lossy(s).into_owned()).unwrap_or_else(|| "<none>".into());
+                    let prev = if k > 0 { show(&exp, k - 1) } else { "<first>".into() };
+                    let class = if only_leading_zeros_lost(&exp, &got) { "mismatch:leading-zeros-of-digit-token-dropped" } else { "mismatch:other" };
+                    (
+                        Some(class.into()),
+                        format!(
+                            "decode(encode(names)) != names: {} names in, {} out; first difference at name #{k}: expected {:?}, got {:?} (previous name {:?})",
+                            exp.len(), got.len(), show(&exp, k), show(&got, k), prev
+                        ),
+                    )
+                }
+            }
+        };
+        if let Some(class) = fail_class {
+            let sig = if let Some(d) = hit.first() {
+                format!("tok-selftrip:substream-encoder-defect={d}")
+            } else if class.starts_with("panic:") {
+                class.clone()
+            } else if class.starts_with("mismatch:leading") {
+                format!("tok-selftrip:{class}")
+            } else {
+                format!("tok-selftrip:{class}:family={}", family)
+            };
+            o.violation_with(sig, format!("name tokenizer {fail_text}; family {} ({req}): {}", family, show_names(list)), wit);
         }
     }
 }
@@ -672,10 +913,28 @@ fn run_case(c: &Case) -> CaseOut {
         "payload" => run_payload(c, &mut o),
         "quals" => run_quals(c, &mut o),
         "names" => run_names(c, &mut o),
+        "witness" => run_witness(c, &mut o),
         _ => {
             o.evaluations = 1;
             run_ints(c, &mut o)
         }
+    }
+    // one payload meets the same defect under many configurations: keep three witnesses per
+    // signature and case, count the rest
+    let mut seen: std::collections::BTreeMap<String, u32> = Default::default();
+    let mut dropped = 0u64;
+    let all = std::mem::take(&mut o.violations);
+    for v in all {
+        let n = seen.entry(v.0.clone()).or_insert(0);
+        *n += 1;
+        if *n <= 3 {
+            o.violations.push(v);
+        } else {
+            dropped += 1;
+        }
+    }
+    if dropped > 0 {
+        o.count("violations_beyond_three_per_signature_and_case", dropped);
     }
     o
 }
@@ -706,7 +965,22 @@ fn gen_cases(ctx: &Ctx) -> Vec<Case> {
     let lengths = gen_::lengths(max_len);
     // variants per (class, length): quick 1, thorough 5 for short lengths
     let variants_short = ctx.budget("variants", 1, 5);
+    // quick: every payload runs ONE pseudo-randomly chosen part out of 8 x parts_for(len) (about 34 of
+    // the 273 configurations for short payloads; which part depends on class, length and VERIF_SEED)
+    // plus rANS 4x8; thorough: every payload runs every configuration.
+    let thin = ctx.budget("thin", 8, 1) as u32;
     let mut payload_cases: Vec<Case> = Vec::new();
+    let mut push_payload = |v: &mut Vec<Case>, class: &str, len: usize, ps: u64| {
+        let n = parts_for(len) * thin;
+        if thin > 1 {
+            let p = (fnv1a(format!("{class}|{len}|{ps}").as_bytes()) % n as u64) as u32;
+            v.push(Case { kind: "payload", class: class.to_string(), len, pseed: ps, part: (p, n), r4x8: true, lo: 0 });
+        } else {
+            for p in 0..n {
+                v.push(Case { kind: "payload", class: class.to_string(), len, pseed: ps, part: (p, n), r4x8: p == 0, lo: 0 });
+            }
+        }
+    };
     for &len in &lengths {
         for class in &classes {
             // the heaviest lengths only for a rotating third of the classes
@@ -716,16 +990,13 @@ fn gen_cases(ctx: &Ctx) -> Vec<Case> {
             let nvar = if len <= 1100 { variants_short } else { 1 };
             for _ in 0..nvar {
                 let ps = pseed(&mut k);
-                let n = parts_for(len);
-                for p in 0..n {
-                    payload_cases.push(Case { kind: "payload", class: class.to_string(), len, pseed: ps, part: (p, n), lo: 0 });
-                }
+                push_payload(&mut payload_cases, class, len, ps);
             }
         }
     }
     // seeded random lengths
     let mut rng = Rng::new(ctx.seed, 80, 0);
-    let nrand = ctx.budget("randlens", 250, 3000);
+    let nrand = ctx.budget("randlens", 250, 2000);
     for _ in 0..nrand {
         let len = match rng.below(4) {
             0 => rng.urange(71, 600),
@@ -735,9 +1006,7 @@ fn gen_cases(ctx: &Ctx) -> Vec<Case> {
         };
         let class = *rng.pick(&classes);
         let ps = pseed(&mut k);
-        let n = parts_for(len);
-        let p = rng.below(n as u64) as u32;
-        payload_cases.push(Case { kind: "payload", class: class.to_string(), len, pseed: ps, part: (p, n), lo: 0 });
+        push_payload(&mut payload_cases, class, len, ps);
     }
     // `cases=N` selects a reduced workload (sanitizer stages): a deterministic stride over the list
     let want = ctx.budget("cases", u64::MAX, u64::MAX);
@@ -756,7 +1025,7 @@ fn gen_cases(ctx: &Ctx) -> Vec<Case> {
     for style in ["fixed", "variable", "mixed"] {
         for nrec in [1usize, 2, 3, 10, 100, 1000] {
             for _ in 0..ctx.budget("qualvariants", 6, 40) {
-                q.push(Case { kind: "quals", class: style.into(), len: nrec, pseed: pseed(&mut k), part: (0, 1), lo: 0 });
+                q.push(Case { kind: "quals", class: style.into(), len: nrec, pseed: pseed(&mut k), part: (0, 1), r4x8: false, lo: 0 });
             }
         }
     }
@@ -764,39 +1033,48 @@ fn gen_cases(ctx: &Ctx) -> Vec<Case> {
 
     // name lists
     let mut n = Vec::new();
-    n.push(Case { kind: "names", class: "empty_list".into(), len: 0, pseed: 0, part: (0, 1), lo: 0 });
+    n.push(Case { kind: "names", class: "empty_list".into(), len: 0, pseed: 0, part: (0, 1), r4x8: false, lo: 0 });
     for fam in gen_::NAME_FAMILIES {
         for count in [1usize, 2, 3, 5, 17, 100, 1000] {
             if (*fam == "single" || *fam == "single_char") && count > 1 {
                 continue;
             }
             for _ in 0..ctx.budget("namevariants", 4, 60) {
-                n.push(Case { kind: "names", class: fam.to_string(), len: count, pseed: pseed(&mut k), part: (0, 1), lo: 0 });
+                n.push(Case { kind: "names", class: fam.to_string(), len: count, pseed: pseed(&mut k), part: (0, 1), r4x8: false, lo: 0 });
             }
         }
     }
     if thorough {
         for fam in ["illumina", "illumina_pairs", "mixed", "padded"] {
-            n.push(Case { kind: "names", class: fam.into(), len: 20_000, pseed: pseed(&mut k), part: (0, 1), lo: 0 });
+            n.push(Case { kind: "names", class: fam.into(), len: 20_000, pseed: pseed(&mut k), part: (0, 1), r4x8: false, lo: 0 });
         }
     }
     cases.extend(reduce(n, want / 10));
 
+    // fixed witnesses of the known findings
+    for w in WITNESSES {
+        cases.push(Case { kind: "witness", class: w.0.to_string(), len: w.3.len(), pseed: 0, part: (0, 1), r4x8: false, lo: 0 });
+    }
+
     // integers
     for (kind, _) in [("itf8_set", 0), ("ltf8", 0), ("uint7", 0)] {
-        cases.push(Case { kind, class: "boundaries".into(), len: 0, pseed: 0, part: (0, 1), lo: 0 });
+        cases.push(Case { kind, class: "boundaries".into(), len: 0, pseed: 0, part: (0, 1), r4x8: false, lo: 0 });
         let chunks = if reduced { 1 } else { 16 };
         for _ in 0..chunks {
-            cases.push(Case { kind, class: "random".into(), len: 1 << 16, pseed: pseed(&mut k), part: (0, 1), lo: 0 });
+            cases.push(Case { kind, class: "random".into(), len: 1 << 16, pseed: pseed(&mut k), part: (0, 1), r4x8: false, lo: 0 });
         }
     }
     if ctx.budget("itf8_exhaustive", 0, 1) == 1 {
         let step = 1u64 << 22;
         let mut lo = 0u64;
         while lo < 1 << 32 {
-            cases.push(Case { kind: "itf8_range", class: "exhaustive".into(), len: step as usize, pseed: 0, part: (0, 1), lo });
+            cases.push(Case { kind: "itf8_range", class: "exhaustive".into(), len: step as usize, pseed: 0, part: (0, 1), r4x8: false, lo });
             lo += step;
         }
+    }
+    // `only=<kind>` keeps one kind of case (debugging aid; floors are not applied then)
+    if let Some(k) = ctx.param("only") {
+        cases.retain(|c| c.kind == k);
     }
     // interleave heavy and light cases across the shards
     let mut rng = Rng::new(0xC08, 81, 0);
@@ -813,11 +1091,11 @@ fn gen_cases(ctx: &Ctx) -> Vec<Case> {
 fn summarise(rep: &mut Report) {
     let mut per: std::collections::BTreeMap<String, Map<String, Value>> = Default::default();
     let mut lens: std::collections::BTreeMap<String, Vec<u64>> = Default::default();
-    let keys: Vec<String> = rep.counters.keys().filter(|k| k.len() > 2 && &k[1..2] == "|" && "LXJN".contains(&k[..1])).cloned().collect();
+    let keys: Vec<String> = rep.counters.keys().filter(|k| k.len() > 2 && &k[1..2] == "~" && "LXJN".contains(&k[..1])).cloned().collect();
     let mut by_codec: std::collections::BTreeMap<String, [u64; 4]> = Default::default();
     for k in keys {
         let n = rep.counters.remove(&k).unwrap();
-        let mut it = k.splitn(3, '|');
+        let mut it = k.splitn(3, '~');
         let tag = it.next().unwrap();
         let cfg = it.next().unwrap().to_string();
         let rest = it.next().unwrap_or("");
@@ -911,7 +1189,7 @@ fn main() {
     run_cases(&ctx, &mut rep, cases.len() as u64, 120.0, &f, &|i| case_json(&cases[i as usize]));
     summarise(&mut rep);
     if ctx.replay.is_none() {
-        let reduced = ctx.param("cases").is_some();
+        let reduced = ctx.param("cases").is_some() || ctx.param("only").is_some();
         let counters = rep.counters.clone();
         let g = |k: &str| counters.get(k).copied().unwrap_or(0);
         if !reduced {
